@@ -491,6 +491,7 @@ type result struct {
 	points []string
 	viol   []string
 	finds  []string
+	keyed  [][2]string // other classified findings: key, what
 	notes  map[string]int
 }
 
@@ -845,8 +846,22 @@ func main() {
 		sum.Sample(c, 2)
 		for _, f := range res.finds {
 			sum.Count("findings", finKeyPruneRetry)
-			if len(sum.Findings) == 0 {
+			have := false
+			for _, x := range sum.Findings {
+				have = have || x.Key == finKeyPruneRetry
+			}
+			if !have {
 				sum.Findings = append(sum.Findings, coqout.Finding{Key: finKeyPruneRetry, What: f, Replay: map[string]any{"case": c}})
+			}
+		}
+		for _, kf := range res.keyed {
+			sum.Count("findings", kf[0])
+			dup := false
+			for _, f := range sum.Findings {
+				dup = dup || f.Key == kf[0]
+			}
+			if !dup {
+				sum.Findings = append(sum.Findings, coqout.Finding{Key: kf[0], What: kf[1], Replay: map[string]any{"case": c}})
 			}
 		}
 		for _, v := range res.viol {
